@@ -403,6 +403,8 @@ func c08State1(c *Ctx, cs *Case, f, merged model.Forest, doc, fkey string, st *c
 				target, rel := j.Target, j.Target
 				if deflt {
 					target, rel = "", ""
+				} else if (si+ri)%5 == 2 {
+					target = j.Target + "/" // a trailing slash must not change anything
 				}
 				opts := fsOpts(target, nil, false, false, false, strict)
 				stray, strayName := strayOptions("verify", si+ri)
